@@ -46,7 +46,9 @@ def monitor(ctx, modname, name, post, label=None):
         # optional pre-hooks (post.pre(args, kwargs) -> token) observe the arguments BEFORE the call, e.g. to copy a
         # table the callee might modify; the token is handed to the post-hook as a sixth argument
         tokens = [p.pre(args, kwargs) if hasattr(p, 'pre') else None for p in posts]
+        before = _arg_digests(args, kwargs)
         result = original(*args, **kwargs)
+        _purity(ctx, label, args, kwargs, before)
         _stability(ctx, label, args, kwargs, result, memo)
         _active[0] = True
         try:
@@ -82,6 +84,42 @@ def _arrays(o, out):
         for e in o:
             _arrays(e, out)
     return out
+
+
+def _digest(v):
+    import hashlib
+    import numpy as np
+    h = hashlib.blake2b(digest_size=8)
+    if isinstance(v, np.ndarray):
+        h.update(str(v.dtype).encode() + str(v.shape).encode() + np.ascontiguousarray(v).tobytes())
+    else:
+        h.update(repr(v).encode())
+    return h.digest()
+
+
+def _arg_digests(args, kwargs):
+    import numpy as np
+    out = []
+    for key, v in list(enumerate(args)) + list(kwargs.items()):
+        if (isinstance(v, np.ndarray) and v.size <= 300000) or (isinstance(v, list) and len(v) <= 10000):
+            out.append((key, _digest(v)))
+    return out
+
+
+def _purity(ctx, label, args, kwargs, before):
+    """The monitored public function must leave its array / list arguments as they were (dict arguments such as the
+    cost cache are written by contract and are not checked): a caller that re-uses its own array for the next call
+    would otherwise be handed results for data it never passed."""
+    changed = []
+    for key, dg in before:
+        v = args[key] if isinstance(key, int) else kwargs[key]
+        if _digest(v) != dg:
+            changed.append(key)
+    if changed:
+        ctx.violation('argument-purity', f'purity:{label}',
+                      f'{label} modified its argument(s) {changed} in place')
+    elif before:
+        ctx.ok('argument-purity')
 
 
 def _stability(ctx, label, args, kwargs, result, memo):
